@@ -33,3 +33,17 @@ Example natural_key_tb_same_order :
   sort_by natural_key_tb key2_ltb [nm "x01"; nm "x1"; nm "x001"] =
   sort_by natural_key_tb key2_ltb [nm "x1"; nm "x001"; nm "x01"].
 Proof. vm_compute. reflexivity. Qed.
+
+(* distinct objects with EQUAL names (memories: build_new_roms clones, user-chosen duplicate names)
+   sorted by a key of the name -- even the tie-broken one -- come out in set order *)
+Theorem same_name_sort_order_refuted : exists l l' : list (N * name),
+  Permutation l l' /\ NoDup l /\ NoDup (map fst l) /\
+  sort_by (fun m => natural_key_tb (snd m)) key2_ltb l <>
+  sort_by (fun m => natural_key_tb (snd m)) key2_ltb l'.
+Proof.
+  exists [(4%N, nm "crom"); (5%N, nm "crom")], [(5%N, nm "crom"); (4%N, nm "crom")].
+  split. apply perm_swap. split.
+  - constructor. simpl. intros [H|[]]. discriminate H. constructor. simpl. tauto. constructor.
+  - split. constructor. simpl. intros [H|[]]. discriminate H. constructor. simpl. tauto. constructor.
+    vm_compute. discriminate.
+Qed.
